@@ -23,6 +23,7 @@ type c11Runner struct {
 	f         c11Fault
 	hold      bool
 	hang      time.Duration
+	full      time.Duration
 	st        *c11Stream
 	ep        net.EndPoint
 	cl        bus.Client
@@ -77,8 +78,21 @@ func (r *c11Runner) waitCall(c int, d time.Duration) bool {
 	case x := <-r.callRes[c]:
 		r.callGot[c] = &x
 		return true
-	case <-time.After(d):
+	case <-time.After(r.hang):
+		r.missed()
 		return false
+	}
+}
+
+// c11Hung counts runs in which some wait hit its deadline; after a few of them the
+// enumeration stops (the violation is established, the remaining runs would only wait).
+var c11Hung int32
+
+// missed: a deadline passed in this run; later waits of the same run are kept short.
+func (r *c11Runner) missed() {
+	if r.hang > 100*time.Millisecond {
+		r.hang = 100 * time.Millisecond
+		atomic.AddInt32(&c11Hung, 1)
 	}
 }
 
@@ -179,6 +193,7 @@ func (r *c11Runner) fire() {
 		case <-done:
 		case <-time.After(r.hang):
 			r.failf("endpoint.Close() did not return within %v", r.hang)
+			r.missed()
 		}
 		r.lab("LUserClose1")
 		r.lab("LUserClose2")
